@@ -1,9 +1,9 @@
-SPECIFICATION CheckedSpec
+SPECIFICATION Spec
 CONSTANTS
   NH = 2
   MaxBlocks = 1
   MaxSteps = 4
-  Bases <- BaseAll
+  Bases <- Base1
   Layouts <- LaySmall
   Counts <- HostCounts
   Lens <- HostLens
@@ -11,9 +11,9 @@ CONSTANTS
   Kinds <- AllKinds
   InitPools = "empty"
   MalClasses <- MalNone
-  GuardFit = TRUE
+  GuardFit = FALSE
   Huge = 99
   EmitOn = FALSE
 VIEW view
-INVARIANTS TypeOK Alive PostedComplete ExactRebuild
+INVARIANTS TypeOK Alive
 CHECK_DEADLOCK FALSE
